@@ -126,3 +126,7 @@ end C08
 #print axioms C08.C08_relabel_five
 #print axioms C08.C08_relabel_six_seven
 #print axioms C08.C08_shift_value
+#print axioms C08.nextSuit_perm
+#print axioms C08.shift_words
+#print axioms C08.relabel_hand
+#print axioms C08.relabel_strength
